@@ -12,6 +12,8 @@ import (
 	"go.uber.org/zap"
 )
 
+var errNoAmmoInSource = errors.New("no ammo in the data source")
+
 type NewAmmoDecoder func(deps core.ProviderDeps, source io.Reader) (AmmoDecoder, error)
 
 // TODO(skipo): test decoder that fills ammo with random data
@@ -89,6 +91,17 @@ func (p *DecodeProvider) Run(ctx context.Context, deps core.ProviderDeps) (err e
 		return errors.WithMessage(err, "decoder construction failed")
 	}
 	var ammoNum int
+	if mpr, ok := multipassReader.(*ioutil2.MultiPassReader); ok && p.conf.Passes <= 0 {
+		// Unlimited passes: a source without a single ammo (empty, whitespace only) must not be read over and over forever.
+		decodedAtLastRewind := 0
+		mpr.OnRewind = func() error {
+			if ammoNum == decodedAtLastRewind {
+				return errNoAmmoInSource
+			}
+			decodedAtLastRewind = ammoNum
+			return nil
+		}
+	}
 	for ; p.conf.Limit <= 0 || ammoNum < p.conf.Limit; ammoNum++ {
 		ammo := p.InputPool.Get()
 		err = decoder.Decode(ammo)
